@@ -85,8 +85,38 @@ theorem tie_clampInt : Generated.Funcs.clampInt = Webp.Impl.VP8Recon.clampInt :=
   funext v lo hi
   simp only [Generated.Funcs.clampInt, Webp.Impl.VP8Recon.clampInt, decide_eq_true_eq]
 
+/-- transforms.go `b2i(cond)`: the `+ b2i(a3 != 0)` term of `FTransform` as the model
+    `Impl.VP8Kernels` writes it (`if a3 ≠ 0 then 1 else 0`) -/
+theorem tie_b2i (a : Int) : Generated.Funcs.b2i (decide (a ≠ 0)) = (if a ≠ 0 then 1 else 0) := by
+  unfold Generated.Funcs.b2i; simp
+
+/-- `b2i` is the encoding's `boolToInt` -/
+theorem b2i_eq : Generated.Funcs.b2i = boolToInt := rfl
+
+/-- yuv.go `clip(v, maxVal) uint8` = the saturation `clamp v 0 maxVal` of the kernel model, truncated
+    to a byte (every `v`, `maxVal`) -/
+theorem tie_dsp_clip (v m : Int) :
+    Generated.Funcs.dsp_clip v m = Webp.Impl.VP8Kernels.toU8 (Webp.Impl.VP8Kernels.clamp v 0 m) := by
+  unfold Generated.Funcs.dsp_clip Webp.Impl.VP8Kernels.toU8 Webp.Impl.VP8Kernels.clamp
+  simp only [wrapU8_eq, decide_eq_true_eq]
+  split
+  · rfl
+  · split <;> rfl
+
+/-- … no truncation for a byte-sized `maxVal` -/
+theorem dsp_clip_eq_clamp (v m : Int) (h0 : 0 ≤ m) (h1 : m ≤ 255) :
+    Generated.Funcs.dsp_clip v m = Webp.Impl.VP8Kernels.clamp v 0 m := by
+  rw [tie_dsp_clip]
+  unfold Webp.Impl.VP8Kernels.toU8 Webp.Impl.VP8Kernels.clamp
+  split
+  · rfl
+  · split <;> omega
+
 /-- non-vacuity -/
 example : Generated.Funcs.mul1 1000 = 1306 ∧ Generated.Funcs.mul2 (-1000) = -542 := by decide
 example : Generated.Funcs.Clip8b (-5) = 0 ∧ Generated.Funcs.Clip8b 300 = 255 ∧ Generated.Funcs.Clip8b 77 = 77 := by decide
+example : Generated.Funcs.b2i (decide ((7 : Int) ≠ 0)) = 1 ∧ Generated.Funcs.b2i (decide ((0 : Int) ≠ 0)) = 0 := by decide
+example : Generated.Funcs.dsp_clip (-5) 15 = 0 ∧ Generated.Funcs.dsp_clip 300 15 = 15 ∧ Generated.Funcs.dsp_clip 9 15 = 9 ∧
+    Generated.Funcs.dsp_clip 300 256 = 0 := by decide
 
 end Webp.Props.C04Funcs
